@@ -19,6 +19,15 @@ CHECKS = {
    technique="TLA+ model checking (TLC) + replay of TLC behaviours into the real code + trace validation"),
 }
 
+CHECKS["C14"] = dict(level="model_checking", design="5 C14",
+   text="spec/Store.tla models the database clock, the expiry decision at ingest, truncation by re-encoding flushes and raw pass-through; TLC checks NeverDropLive, NeverStoreExpired and NoExpiredInTruncatedFile for every interleaving of a small instance with retention 3-4 ticks; aging histories with late and out-of-order points, >= 10 flushes per table (the truncating one included), crashes and clean restarts are replayed on the real database with a virtual clock and every stored/skipped decision, every disk-only result (exact) and every memstore-inclusive and windowed result (exact on live periods, subset on expired ones) is bound to the specification by trace validation.",
+   note="Virtual clock only (the clock is the newest accepted timestamp since the last open). Retention/resolution ratios 1..5. The 10-second old-file remover is not exercised.",
+   technique="TLA+ model checking (TLC) + replay of TLC behaviours into the real code + trace validation")
+CHECKS["C15"] = dict(level="model_checking", design="5 C15",
+   text="spec/Store.tla models Alter as the code performs it (table.fields first, then the row store takes the list and force-flushes a non-empty memstore with the new output fields; file columns are mapped by field identity); TLC checks AlterKeepsRetained, AddedStartEmpty and FlushInvisible over every interleaving of a small instance with permutations, insertions, deletions and WHERE changes; histories interleaving inserts, flush steps, crashes, clean restarts and schema applications (incl. a wide PERCENTILE field and MAX/AVG fields to shift byte layouts) are replayed on the real database and every query result (all fields and field subsets, with and without memstore) is bound to the specification by trace validation.",
+   note="A removed field is never re-added in one behaviour (its old column may legitimately still be on disk). Tables never hold two fields with the same expression text (see DESIGN.md, observation O2).",
+   technique="TLA+ model checking (TLC) + replay of TLC behaviours into the real code + trace validation")
+
 NOT_YET = {}
 
 
